@@ -174,6 +174,17 @@ def systematic():
         qs.append(grp(a, {"t": "graph", "name": V("g"), "g": grp(bgp((V("x"), V("r2"), V("o2"))))}))
         qs.append(grp({"t": "graph", "name": I("g3"), "g": grp(a)}))
         qs.append(grp({"t": "graph", "name": I("nosuch"), "g": grp(a)}))
+    # patterns written after a MINUS / UNION / nested group / VALUES / FILTER of the same group: the position of a triple block matters
+    # for MINUS (what is removed is decided before the later block joins) and must not matter for the others
+    C_POOL = [bgp((V("z"), I("p"), V("w"))), bgp((V("x"), I("q"), V("z"))), bgp((V("z"), I("q"), V("x")))]
+    for a in A_POOL[:3]:
+        for b in B_POOL[:3]:
+            for c3 in C_POOL:
+                qs.append(grp(a, {"t": "minus", "g": grp(b)}, c3))
+                qs.append(grp(a, {"t": "group", "g": grp(a, {"t": "minus", "g": grp(b)})}, c3))
+                qs.append(grp(a, {"t": "union", "gs": [grp(b), grp(c3)]}, c3))
+                qs.append(grp(a, {"t": "filter", "e": {"e": "notexists", "g": grp(b)}}, c3))
+                qs.append(grp({"t": "values", "vars": ["x"], "rows": [[I("n1")], [I("n2")]]}, {"t": "minus", "g": grp(b)}, c3))
     # EXISTS / NOT EXISTS / MINUS / OPTIONAL evaluated inside GRAPH ?g: the active graph is part of what the inner pattern sees
     for a in A_POOL[:4]:
         for b in B_POOL[:3]:
